@@ -987,6 +987,10 @@ func (g *genCtx) generate(cf *ContractFile) (string, error) {
 				switch {
 				case raw == "*":
 					mi.Kind, mi.Type, mi.Field = "whole", "*", "*"
+				case strings.HasPrefix(raw, "map "):
+					// the contents of one Go map
+					mi.Kind = "mapof"
+					mi.ArgFns = []string{mkfn(strings.TrimSpace(strings.TrimPrefix(raw, "map ")))}
 				case strings.HasPrefix(raw, "result."):
 					// fields of the (freshly created) result object
 					mi.Kind, mi.Field = "resultfield", strings.TrimPrefix(raw, "result.")
